@@ -38,6 +38,9 @@ fn gen_ready(g: &mut Rng, _tier: Tier) -> J {
         "second_write" => g.chance(1, 3),
         // the target waits again on the same (still registered) descriptor after each delivery
         "rounds" => *g.pick(&[1u64, 1, 2, 3]),
+        // single loop: between two rounds the target also waits (1 ms) for its descriptor to become writable,
+        // so that the read interest has to survive a write interest being added next to it
+        "write_between" => g.chance(1, 3),
         "sim" => gen_sim(g, SimOpts { max_points: 3_000_000, max_sim_ms: 30_000, timing: true, ..SimOpts::default() }),
     }
 }
@@ -137,6 +140,7 @@ fn body_ready(plan: &J) {
         socks.push((fd, peer));
         let r = recs.clone();
         let my_rounds = if i == plan.gus("target") % n { plan.gu("rounds").clamp(1, 3) } else { 1 };
+        let write_between = plan.gb("write_between") && loops == 1;
         handles.push(EventLoops::submit_task(
             Some(format!("waiter-{i}")),
             move |_| {
@@ -154,6 +158,11 @@ fn body_ready(plan: &J) {
                     g[i].done += 1;
                     if got != 1 {
                         break;
+                    }
+                    if write_between && g[i].done < my_rounds {
+                        drop(g);
+                        probe("ready.write-wait-between");
+                        _ = EventLoops::wait_write_event(fd, Some(Duration::from_millis(1)));
                     }
                 }
                 Some(i)
